@@ -1412,7 +1412,8 @@ class Plot:
                         for _plot_adapter in _plot_adapters:
                             _max_abs_deviation = max(
                                 _max_abs_deviation,
-                                np.max(np.abs((_plot_adapter.data_y - _plot_adapter.model_y) / _plot_adapter.data_yerr)),
+                                # same uncertainty as in plot_pull (includes the Poisson term of the cost function):
+                                np.max(np.abs((_plot_adapter.data_y - _plot_adapter.model_y) / _plot_adapter._get_total_error(("data",)))),
                             )
                         # Small gap between highest error bar and plot border:
                         _low = -_max_abs_deviation * 1.2
